@@ -121,6 +121,45 @@ fn random_trees(g: &mut Gen, st: &mut Stats) -> CaseResult {
     Ok(())
 }
 
+/// Lengths and arguments whose head contains the bytes a scanner could mistake for structure (0xff = break, 0x5f/0x7f/0x9f/
+/// 0xbf = indefinite openers): chunked strings with chunk lengths 255, 511, 0xff00.., definite strings, arrays and maps of
+/// exactly such sizes, heads wider than necessary (`79 00 ff`), payloads full of 0xff - alone and inside containers.
+fn special_lengths(g: &mut Gen, st: &mut Stats) -> CaseResult {
+    use vcore::item::W;
+    st.eval();
+    const LENS: [usize; 22] = [0, 1, 23, 24, 0x5f, 0x7f, 0x9f, 0xbf, 0xfe, 0xff, 0x100, 0x1ff, 0x2ff, 0x5f5f, 0x7f00, 0x9fff, 0xff00, 0xff7f, 0xffff, 0x1_0000, 0x1_00ff, 0x1_ff00];
+    fn len(g: &mut Gen, small: bool) -> usize { let l = *g.pick(&LENS); if small && l > 0x2ff { *g.pick(&[0xffusize, 0x1ff, 0x2ff, 0x7f, 0xbf]) } else { l } }
+    fn text(n: usize, k: usize) -> String { (0 .. n).map(|i| (b'a' + ((i * 7 + k) % 26) as u8) as char).collect() }
+    fn bytes(g: &mut Gen, n: usize) -> Vec<u8> { match g.below(3) { 0 => vec![0xff; n], 1 => (0 .. n).map(|i| [0xff, 0x7f, 0x5f, 0x9f, 0xbf, 0x00][i % 6]).collect(), _ => (0 .. n).map(|i| (i * 31) as u8).collect() } }
+    let kind = g.below(8);
+    let core: Item = match kind {
+        0 | 1 => { let n = 1 + g.below(3); Item::TextIndef((0 .. n).map(|k| { let l = len(g, n > 1 && k > 0); (text(l, k), g.width_for(l as u64)) }).collect()) }
+        2 | 3 => { let n = 1 + g.below(3); Item::BytesIndef((0 .. n).map(|k| { let l = len(g, n > 1 && k > 0); (bytes(g, l), g.width_for(l as u64)) }).collect()) }
+        4 => { let l = len(g, false); Item::Text(text(l, 3), g.width_for(l as u64)) }
+        5 => { let l = len(g, false); Item::Bytes(bytes(g, l), g.width_for(l as u64)) }
+        6 => { let l = len(g, true); let w = g.width_for(l as u64); Item::Array((0 .. l).map(|i| if i % 5 == 0 { Item::Simple(255) } else { Item::UInt(0xff, W::W1) }).collect(), Some(w)) }
+        _ => { let l = len(g, true); let w = g.width_for(l as u64); Item::Map((0 .. l).map(|i| (Item::UInt(i as u64, g.width_for(i as u64)), Item::NInt(0xff, W::W1))).collect(), Some(w)) }
+    };
+    let x = match g.below(7) {
+        0 => core,
+        1 => Item::array(vec![core, Item::uint(1)]),
+        2 => Item::Array(vec![Item::uint(0), core, Item::text("z")], None),
+        3 => Item::map(vec![(Item::uint(255), core), (Item::uint(2), Item::Null)]),
+        4 => Item::tag(*g.pick(&[255u64, 0xff00, 0xffff_ffff, 24]), core),
+        5 => Item::array(vec![Item::Array(vec![core], None), Item::uint(0xff)]),
+        _ => Item::Map(vec![(core, Item::uint(0xff))], None)
+    };
+    let enc = x.encode();
+    let n = g.below(5);
+    let suffix: Vec<u8> = (0 .. n).map(|_| *g.pick(&[0xffu8, 0x00, 0x7f, 0x9f])).collect();
+    check_skip(&enc, &suffix, true, false, Some(g))?;
+    st.nontrivial(hash_of(&(&enc[.. enc.len().min(24)], enc.len())));
+    st.class(["special/chunked text", "special/chunked text", "special/chunked bytes", "special/chunked bytes", "special/definite text", "special/definite bytes", "special/array of n", "special/map of n"][kind]);
+    if enc.windows(2).any(|w| (w[0] & 0x1f) >= 24 && (w[0] & 0x1f) <= 27 && w[1] == 0xff && (w[0] >> 5) != 7) { st.class("special/0xff right after a head byte") }
+    st.sample(hash_of(&enc), || format!("{}.. ({} bytes) + suffix {}", short_hex(&enc[.. enc.len().min(24)]), enc.len(), short_hex(&suffix)));
+    Ok(())
+}
+
 /// Deep chains generated directly as bytes: mixed definite/indefinite arrays and maps and tags, definite
 /// parents with later siblings (which force the switch from counting mode to the explicit stack).
 fn chains(g: &mut Gen, st: &mut Stats) -> CaseResult {
@@ -181,6 +220,8 @@ pub fn subs() -> Vec<Sub> {
               kind: Kind::Enumerate { quick: 400_000.min(n5), thorough: n5, f: structures5, complete_quick: false, complete_thorough: true } },
         Sub { prop: "C06", name: "random-trees", rule: "grammar-generated trees (depth <= 8, all framings) + 0-8 arbitrary suffix bytes; prefixes sampled for long items; distinct by encoding",
               kind: Kind::Random { quick: 500_000, thorough: 4_000_000, tape: 1024, f: random_trees } },
+        Sub { prop: "C06", name: "special-lengths", rule: "chunked and definite strings, arrays and maps whose lengths / chunk lengths put 0xff, 0x5f, 0x7f, 0x9f or 0xbf into a head (255, 511, 767, 0x5f5f, 0xff00..0xffff, 0x1ff00; minimal and wider heads such as 79 00 ff), payloads full of 0xff, alone or inside definite / indefinite arrays, maps and tags, followed by break-like suffix bytes: skip stops at the item's end, agrees with full decoding, strict prefixes fail",
+              kind: Kind::Random { quick: 60_000, thorough: 600_000, tape: 256, f: special_lengths } },
         Sub { prop: "C06", name: "chains", rule: "byte-level nesting chains to depth 10^4, 1.5 % of them 66 000 - 100 000 deep (8 opener kinds incl. definite parents with later siblings -> counting-to-stack switch, indefinite maps, tags), validated by the iterative reference parser; distinct by encoding",
               kind: Kind::Random { quick: 20_000, thorough: 100_000, tape: 10_100, f: chains } },
         Sub { prop: "C06", name: "raw-input", rule: "replay entry for abnormal exits: a recorded input through skip() in a fresh process (a stack overflow or fatal signal that reproduces is the violation)",
